@@ -608,7 +608,7 @@ pub fn check(ctx: &Ctx, rep: &mut Report) {
             POSITIONS.len()
         ));
     }
-    let nrand = ctx.size(30_000, 1_000_000) / ctx.nshards;
+    let nrand = ctx.size(30_000, 5_000_000) / ctx.nshards;
     for k in 0..nrand {
         let n = total + k;
         if !ctx.wants(n) {
